@@ -294,6 +294,9 @@ type c13Case struct {
 	Class string
 	// ResShape: extra results of the injector (0 none, 1 error, 2 func(), 3 func() and error)
 	ResShape int
+	// HomeInjector (cross only): the package that declares the set has an injector of its own
+	// using it, and its directory sorts before the injector package's (so it is analysed first)
+	HomeInjector bool
 }
 
 // c13Program renders a group of cases into one program. Each case k has injector InitK
@@ -302,6 +305,12 @@ func c13Program(id string, cases []c13Case) *Program {
 	p := &Program{ID: id, Module: ModulePath, Extra: map[string]string{}, Feat: map[string]string{}, RawDriver: true}
 	p.Pkgs = []*Pkg{{Name: "app", Dir: "app"}, {Name: "lib", Dir: "lib"}}
 	cross := cases[0].Cross
+	var homeInj strings.Builder
+	for _, c := range cases {
+		if c.Cross && c.HomeInjector {
+			p.Pkgs[1].Dir = "aaa_lib"
+		}
+	}
 	home := "app"
 	homeIdx := 0
 	if cross {
@@ -352,6 +361,9 @@ func c13Program(id string, cases []c13Case) *Program {
 		}
 		if cross {
 			fmt.Fprintf(&sets, "var ValSet%d = wire.NewSet(%s)\n", c.ID, item)
+			if c.HomeInjector {
+				fmt.Fprintf(&homeInj, "func InitLocal%d() %s {\n\tpanic(wire.Build(ValSet%d))\n}\n\n", c.ID, q(v.Type, true), c.ID)
+			}
 			fmt.Fprintf(&injs, "func Init%d(%s) %s {\n\tpanic(wire.Build(lib.ValSet%d))\n}\n\n", c.ID, v.Param, typ, c.ID)
 			fmt.Fprintf(&injs, "func Init%db(%s) %s {\n\tpanic(wire.Build(lib.ValSet%d))\n}\n\n", c.ID, v.Param, typ, c.ID)
 			usesLibInInj = true
@@ -374,6 +386,9 @@ func c13Program(id string, cases []c13Case) *Program {
 	p.Extra[fmt.Sprintf("%d/home.go", homeIdx)] = homeSrc.String()
 	if cross {
 		p.Extra["1/sets.go"] = sets.String()
+		if homeInj.Len() > 0 {
+			p.Extra["1/wire.go"] = "//go:build wireinject\n// +build wireinject\n\npackage lib\n\nimport \"github.com/google/wire\"\n\n" + homeInj.String()
+		}
 	}
 	p.Extra["0/wire.go"] = injs.String()
 	p.Extra["0/zz_driver.go"] = drv.String()
